@@ -1368,6 +1368,9 @@ func (g *txnGen) genChainBuild() []OperationJ {
 	}
 	rng := g.rng
 	n := 2 + rng.Intn(3)
+	if rng.Intn(3) == 0 {
+		n = 6 + rng.Intn(8) // longer than the schema has tables: the collection needs a pass per link
+	}
 	var ops []OperationJ
 	var links []Atom
 	for i := 0; i < n; i++ {
